@@ -37,12 +37,12 @@ TABLE = {
         ("Proofs/RecvUnrelP.v", ["ru_process_message_safe", "ru_process_slice_safe", "ru_discard_old_safe", "ru_receive_safe"]),
         ("Proofs/DisconnectP.v", ["process_packet_reasons"]),
         ("Proofs/ServerP.v", ["process_packet_from_others", "server_frame"]),
-        ("Proofs/ConnP.v", ["process_packet_total", "cstep_safe", "crun_safe"]),
+        ("Proofs/ConnP.v", ["conn_inv_init", "process_packet_total", "process_packet_memory_bounded", "cstep_safe", "crun_safe", "flush_no_overflow"]),
     ], ""),
     "C08": ("A reliable message is released only after the peer really has it", [
         ("Proofs/AcksP.v", ["add_pending_ack_wf", "add_pending_ack_sound", "feed_sound", "feed_wf", "acked_largest_spec", "acked_largest_wf"]),
         ("Proofs/SendRelP.v", ["sr_ack_message_safe", "sr_ack_slice_safe"]),
-        ("Proofs/ConnP.v", ["ack_only_parsed", "release_needs_ack"]),
+        ("Proofs/ConnP.v", ["ack_only_parsed", "acks_grow_only_by_parsed", "flush_acks_subset", "sent_info_faithful", "release_needs_ack"]),
     ], ""),
     "C09": ("Channel memory budgets: never exceeded, never leaked, fully returned", [
         ("Proofs/RecvRelP.v", ["rr_inv_init", "rr_process_message_safe", "rr_process_slice_safe", "rr_receive_safe", "drained_is_empty"]),
@@ -70,7 +70,7 @@ TABLE = {
         ("Proofs/SendRelP.v", ["sr_get_packets_safe"]),
         ("Proofs/SendRelP.v", ["budget_consumed_le_pending", "untransmitted_keep_stamp", "untransmitted_keep_stamp_slice"]),
         ("Proofs/SendUnrelP.v", ["su_get_packets_safe", "su_get_packets_spec", "su_carried"]),
-        ("Proofs/ConnP.v", ["budget_respected", "priority_order"]),
+        ("Proofs/ConnP.v", ["gather_spec", "budget_respected", "priority_order", "first_channel_gets_full_budget"]),
     ], ""),
     "C15": ("Retransmission: not before resend_time, promptly after it, never once acked", [
         ("Proofs/SendRelP.v", ["no_early_resend", "no_early_resend_slice", "transmission_stamps", "transmission_stamps_slice", "prompt_if_budget_left", "prompt_small", "prompt_all", "no_duplicates_in_tick", "acked_slice_not_resent", "acked_message_not_resent", "acked_flags_kept", "sr_ack_message_safe", "sr_ack_slice_safe"]),
